@@ -47,10 +47,29 @@ def evaluate(prop, src, tier, use_cache=True, target_dir=None):
     return cx, mod
 
 
-def selftest(prop, mod, tier_jobs=8):
+def selftest(prop, mod, tier_jobs=12):
     """thorough tier: every registered breaking edit must make the named instance fire on a
     scratch copy of /repo (and benign edits must stay silent)."""
-    variants = getattr(mod, "SELFTEST", [])
+    variants = list(getattr(mod, "SELFTEST", []))
+    # the kept independently seeded changes written against this property must make this property's check fire,
+    # and every behaviour-preserving refactoring of the false-alarm corpus must leave it silent
+    sroot = os.path.join(VERIF, "seeded")
+    if os.path.isdir(sroot):
+        for d in sorted(os.listdir(sroot)):
+            mp = os.path.join(sroot, d, "meta.json")
+            if os.path.exists(mp):
+                try:
+                    m = json.load(open(mp))
+                except Exception:
+                    continue
+                if m.get("property") == prop:
+                    variants.append({"name": "seeded/" + d, "patch": os.path.join(sroot, d, "patch.diff"), "expect_any": True})
+    broot = os.path.join(VERIF, "benign")
+    if os.path.isdir(broot):
+        for d in sorted(os.listdir(broot)):
+            pp = os.path.join(broot, d, "patch.diff")
+            if os.path.exists(pp):
+                variants.append({"name": "benign/" + d, "patch": pp, "expect": []})
     results = []
     if not variants:
         return results
@@ -61,7 +80,11 @@ def selftest(prop, mod, tier_jobs=8):
         try:
             dst = os.path.join(tmp, "repo")
             shutil.copytree("/repo", dst, ignore=shutil.ignore_patterns("target", ".git"))
-            for ed in v["edits"]:
+            if v.get("patch"):
+                pr = subprocess.run(["git", "apply", "--whitespace=nowarn", v["patch"]], cwd=dst, stdout=subprocess.PIPE, stderr=subprocess.STDOUT, text=True)
+                if pr.returncode != 0:
+                    return {"name": v["name"], "ok": False, "why": "patch does not apply to the current tree (self-test skipped: source changed)", "skipped": True}
+            for ed in v.get("edits", []):
                 fp = os.path.join(dst, ed["file"])
                 s = open(fp).read()
                 if s.count(ed["old"]) < 1:
@@ -76,7 +99,10 @@ def selftest(prop, mod, tier_jobs=8):
             known = {k["key"] for k in load_known() if k.get("status") == "known"}
             fired_new = sorted({vi["instance"] for inst in cx.instances for vi in inst.violations if vi["key"] not in known})
             exp = v.get("expect", [])
-            if exp:
+            if v.get("expect_any"):
+                ok = bool(fired_new)
+                exp = ["<any instance of %s>" % prop]
+            elif exp:
                 ok = all(any(f == e or f.startswith(e) for f in fired_new) for e in exp)
             else:
                 ok = not fired_new
